@@ -500,6 +500,107 @@ fn run_engine(case: &ECase) -> CaseReport {
     rep
 }
 
+// ---------------------------------------------------------------------------------------------
+// task_two_pumps: ONE background task writing stdout and stderr at once (two pump tasks, the main
+// future and the control path all emit on the same task stream). The producer side is perturbed at
+// the emit hook: an emitter whose seq matches a generated residue class is held for a generated
+// time between taking its seq and publishing, so the other pump runs past it if nothing stops it.
+// The perturbation only changes which schedule runs; the verdict comes from the log.
+// ---------------------------------------------------------------------------------------------
+
+#[derive(Debug, Clone, Serialize, Deserialize)]
+struct PumpCase {
+    /// lines per stream and bytes per line
+    lines: u16,
+    width: u16,
+    /// 0 alternate line by line, 1 two background writers at once, 2 stdout burst then stderr burst
+    shape: u8,
+    modulus: u8,
+    residue: u8,
+    hold_us: u16,
+    tasks: u8,
+}
+
+fn pump_case_strategy() -> BoxedStrategy<PumpCase> {
+    (1u16..40, prop_oneof![3 => 1u16..80, 1 => 2000u16..9000], 0u8..3, 2u8..6, 0u8..6, 100u16..3000, 1u8..4)
+        .prop_map(|(lines, width, shape, modulus, residue, hold_us, tasks)| PumpCase { lines, width, shape, modulus, residue: residue % modulus, hold_us, tasks })
+        .boxed()
+}
+
+struct PumpSlot {
+    plan: Mutex<Option<(u64, u64, u64)>>,
+    held: std::sync::atomic::AtomicU64,
+}
+
+fn pump_handler(slot: Arc<PumpSlot>) -> Arc<dyn Fn(&str, &str) + Send + Sync> {
+    Arc::new(move |point: &str, ctx: &str| {
+        if point != "emit.before_publish" {
+            return;
+        }
+        let plan = *slot.plan.lock().unwrap_or_else(|e| e.into_inner());
+        let Some((modulus, residue, hold_us)) = plan else { return };
+        let seq: u64 = ctx.rsplit(':').next().and_then(|s| s.parse().ok()).unwrap_or(0);
+        if seq % modulus == residue {
+            slot.held.fetch_add(1, std::sync::atomic::Ordering::Relaxed);
+            std::thread::sleep(Duration::from_micros(hold_us));
+        }
+    })
+}
+
+thread_local! {
+    static PUMP_RT: (tokio::runtime::Runtime, Arc<PumpSlot>) = {
+        let slot = Arc::new(PumpSlot { plan: Mutex::new(None), held: std::sync::atomic::AtomicU64::new(0) });
+        let s2 = slot.clone();
+        let rt = tokio::runtime::Builder::new_multi_thread()
+            .worker_threads(4)
+            .enable_all()
+            .on_thread_start(move || rv::sched::set_thread_handler(Some(pump_handler(s2.clone()))))
+            .build()
+            .expect("runtime");
+        (rt, slot)
+    };
+}
+
+fn run_pumps(case: &PumpCase) -> CaseReport {
+    let mut rep = CaseReport::new();
+    PUMP_RT.with(|(rt, slot)| {
+        let held0 = slot.held.load(std::sync::atomic::Ordering::Relaxed);
+        *slot.plan.lock().unwrap_or_else(|e| e.into_inner()) = Some((case.modulus as u64, case.residue as u64, case.hold_us as u64));
+        rt.block_on(async {
+            let auth = rv::runs::Authority::new("c01p", None);
+            let (l, w) = (case.lines, case.width);
+            let cmd = match case.shape {
+                0 => format!("x=$(head -c {w} /dev/zero | tr '\\0' a); for i in $(seq 1 {l}); do echo \"o$i $x\"; echo \"e$i $x\" >&2; done"),
+                1 => format!("x=$(head -c {w} /dev/zero | tr '\\0' a); (for i in $(seq 1 {l}); do echo \"o$i $x\"; done) & (for i in $(seq 1 {l}); do echo \"e$i $x\" >&2; done); wait"),
+                _ => format!("x=$(head -c {w} /dev/zero | tr '\\0' a); for i in $(seq 1 {l}); do echo \"o$i $x\"; done; for i in $(seq 1 {l}); do echo \"e$i $x\" >&2; done"),
+            };
+            let mut ids = Vec::new();
+            for _ in 0..case.tasks {
+                let (_s, v) = rv::http::call_json(&auth.router, Method::POST, "/tasks", Some(json!({"tool": "bash", "args": {"command": cmd}, "execution_mode": "pipes"}))).await;
+                if let Some(t) = v["task_id"].as_str() {
+                    ids.push(t.to_string());
+                }
+            }
+            for t in &ids {
+                if !wait_task_terminal(&auth, t, Duration::from_secs(60)).await {
+                    rep.inconclusive("quiescence_timeout");
+                    return;
+                }
+            }
+            tokio::time::sleep(Duration::from_millis(10)).await;
+            let shared = Shared { threads: Mutex::new(Vec::new()), acked: Mutex::new(Vec::new()) };
+            verdict(&auth.sandbox, &shared, &mut rep, "task_two_pumps");
+            let frames = auth.sandbox.truth_values().unwrap_or_default().iter().filter(|v| v["stream_kind"] == "task").count();
+            rep.count("task_frames", frames as u64);
+            rep.nontrivial = !ids.is_empty() && frames >= 6;
+        });
+        *slot.plan.lock().unwrap_or_else(|e| e.into_inner()) = None;
+        rep.count("emitters_held", slot.held.load(std::sync::atomic::Ordering::Relaxed) - held0);
+        rep.class(match case.shape { 0 => "shape:alternating", 1 => "shape:two_writers_at_once", _ => "shape:bursts" });
+    });
+    rep
+}
+
 fn open_jobs(sb: &Sandbox) -> usize {
     let values = sb.truth_values().unwrap_or_default();
     let spawned: Vec<&str> = values.iter().filter(|v| v["type"] == "continuity_job_spawned").filter_map(|v| v["job_id"].as_str()).collect();
@@ -547,6 +648,14 @@ fn main() {
         GroupOpts { cases: n, max_shrink_iters: 60, watchdog_s: 600, ..Default::default() },
         ecase_strategy,
         run_engine,
+    );
+    let n = check.cases(200, 5000);
+    check.group(
+        "task_two_pumps",
+        "1-3 pipes tasks whose command writes 1-39 lines (1-80 bytes or 2-9 KB wide) to stdout AND stderr (alternating, two writers at once, or two bursts): the two pump tasks, the main future and the control path emit on one task stream; every emitter whose seq falls in a generated residue class is held 0.1-3 ms at the emit hook (between taking its seq and publishing). Verdict from the log: validated replay + per-stream numbering in file order. non-trivial = >=6 task frames; distinct by case hash",
+        GroupOpts { cases: n, max_shrink_iters: 60, watchdog_s: 600, ..Default::default() },
+        pump_case_strategy,
+        run_pumps,
     );
     check.finish();
 }
